@@ -108,6 +108,16 @@ def make_env_path(path: str):
     return PrimaiteGymEnv(env_config=path)
 
 
+def make_marl_env(cfg: Dict):
+    """`PrimaiteRayMARLEnv(cfg)` behind the adapter. Action masking is switched off: with the installed gymnasium the class cannot be
+    constructed otherwise (`spaces.MultiBinary(space.n)` refuses a numpy integer - a matter of the library version, not of C04)."""
+    cfg = copy.deepcopy(cfg)
+    for a in cfg.get("agents", []):
+        if isinstance(a.get("agent_settings"), dict) and a["agent_settings"].get("action_masking"):
+            a["agent_settings"]["action_masking"] = False
+    return iso.MarlAdapter(cfg)
+
+
 # ---------------------------------------------------------------------------------------------- scenario variants
 def set_nmne(cfg: Dict, nmne: Dict) -> Dict:
     cfg = copy.deepcopy(cfg)
@@ -523,7 +533,14 @@ def replay(rec: dict) -> bool:
         fresh_resets = rp.get("fresh_resets", sum(1 for op in history if op[0] == "reset"))
         if rp.get("files"):    # an episode-scheduled scenario: the record carries the folder
             return iso.compare_after_history(_write_folder(rp["files"]), history, fresh_resets, later, make=make_env_path)["diff"] is None
-        return iso.compare_after_history(rp["cfg"], history, fresh_resets, later)["diff"] is None
+        return iso.compare_after_history(rp["cfg"], history, fresh_resets, later, make=make_marl_env if rp.get("marl") else None)["diff"] is None
+    if rp.get("type") == "history-raises":
+        if not isinstance(rp["cfg"], dict) and not rp.get("files"):
+            return False
+        _prepare_replay()
+        cfgp = _write_folder(rp["files"]) if rp.get("files") else rp["cfg"]
+        mk = make_marl_env if rp.get("marl") else (make_env_path if rp.get("files") else None)
+        return not iso.raises_only_after_reset(cfgp, [tuple(x) for x in rp["history"]], make=mk)["fails"]
     return False  # identity / scheduler / global-mutated records are not re-executable on their own: re-run the check
 
 
@@ -872,6 +889,12 @@ def _do_dirty(ctx: Rec, unit: dict):
             cfg0 = {}
     fam = iso.seed_family(iso.configured_seed(cfg0), rng.fork("family"))
     seeds = [fam[i] for i in unit["pick"]]
+    if unit.get("marl"):
+        # `PrimaiteRayMARLEnv` never seeds (Gen: C04_gen_marl_shape - neither `__init__` from `game.seed` nor `reset` from its argument):
+        # every reset of it IS the unseeded reset, compared with a fresh environment that starts from the same generator state
+        maker, seeds = make_marl_env, [None, None]
+        episodes = max(2, episodes)      # at least one reset inside the dirty history
+        ctx.count("dirty:multi-agent-environment-case")
     # probe pairs of the generated map: scans of a LIST of targets (end of every dirty episode) / of a single target (end of every compared one)
     extra_h, extra_l = [], []
     if isinstance(cfg, dict):
@@ -882,9 +905,30 @@ def _do_dirty(ctx: Rec, unit: dict):
         ctx.count("dirty:probe-pairs(scan of several networks in the history, of one alone later)", min(len(extra_h), len(extra_l)))
     try:
         r = iso.dirty_history(cfg, rng, n_dirty, n_later, episodes, seeds, make=maker, extra_history=extra_h, extra_later=extra_l)
+    except iso.HistoryRaised as hr:
+        # an operation of the dirty history raised. If the same steps do NOT raise on a newly constructed environment, the reset left
+        # something behind that a new environment does not have: a concrete violation (otherwise: totality, C01's business - noted)
+        ctx.count("dirty:history-operation-raised")
+        rp = {"type": "history-raises", "scenario": label, "marl": bool(unit.get("marl")), "cfg": cfg if isinstance(cfg, dict) else str(cfg),
+              **({} if isinstance(cfg, dict) else {"files": _folder_files(cfg)}), "history": [list(x) for x in hr.history]}
+        try:
+            v = iso.raises_only_after_reset(cfg, hr.history, make=maker)
+        except Exception as e2:
+            v = {"fails": False, "used": str(hr), "fresh": f"oracle not runnable: {type(e2).__name__}"}
+        if v["fails"]:
+            ctx.violation({"kind": "operation-raises-after-reset", "exception": type(hr.exc).__name__},
+                          f"{label}: operation #{len(hr.history)} of the history ({hr.history[-1]}) raises {v['used']} in an episode after a reset; the same "
+                          f"{v['episode_steps']} steps of that episode on a newly constructed environment do not raise", rp)
+        else:
+            ctx.notes.append(f"dirty-history {label}: an operation of the history raised ({v['used']}); a newly constructed environment: {v['fresh']}")
+        return
     except Exception as e:
-        ctx.notes.append(f"dirty-history {label}: not runnable: {type(e).__name__}: {str(e)[:120]}")
+        import traceback
+        where = " <- ".join(f"{fr.filename.split('/')[-1]}:{fr.lineno}:{fr.name}" for fr in traceback.extract_tb(e.__traceback__)[-4:])
+        ctx.notes.append(f"dirty-history {label}: not runnable: {type(e).__name__}: {str(e)[:120]} ({where})")
         ctx.count("dirty:not-runnable")
+        if unit.get("marl"):    # not a silent skip: the multi-agent environment is part of the claim
+            ctx.oblige(f"rig: the multi-agent environment case {label} ran", "correspondence", False, f"{type(e).__name__}: {str(e)[:120]} ({where})")
         return
     ctx.count("dirty:case")
     ctx.traces += 1
@@ -894,7 +938,7 @@ def _do_dirty(ctx: Rec, unit: dict):
     sched_flag = 0 if isinstance(cfg, dict) else 1
     rngflag = int(iso.uses_global_rng(cfg)) if isinstance(cfg, dict) else 1
     buildflag = int(iso.draws_at_build(cfg)) if isinstance(cfg, dict) else 1
-    gs = cfg0.get("game", {}).get("seed")
+    gs = cfg0.get("game", {}).get("seed") if not unit.get("marl") else None
     ctor = f"constructopt {iso.seed_text(gs if isinstance(gs, int) else None)}"
     reported = False
     for res in r["results"]:
@@ -914,15 +958,15 @@ def _do_dirty(ctx: Rec, unit: dict):
                           f"+ the same actions differ from a fresh environment"
                           + (" that starts its reset from the same generator state" if seed is None else "") +
                           f" at record {d['index']} in {d['component']} {d.get('path', '')}: used={d.get('a')} fresh={d.get('b')}",
-                          {"type": "dirty-history", "scenario": label, "cfg": cfg if isinstance(cfg, dict) else str(cfg),
+                          {"type": "dirty-history", "scenario": label, "marl": bool(unit.get("marl")), "cfg": cfg if isinstance(cfg, dict) else str(cfg),
                            **({} if isinstance(cfg, dict) else {"files": _folder_files(cfg)}), "history": [list(x) for x in res["history"]], "fresh_resets": res["fresh_resets"], "later": [list(x) for x in res["later"]], "diff": d})
         # model: used = instance 0, fresh = instance 1, same environment-level attributes; the seed argument goes to the model AS IT IS
         lines = ["reset", f"new 0 7 1 0 {rngflag} {sched_flag} 0 {buildflag}", f"new 1 7 1 0 {rngflag} {sched_flag} 0 {buildflag}", f"ev 0 {ctor}"]
         for op in res["history"]:
-            lines.append(f"ev 0 resetopt {iso.seed_text(op[1])}" if op[0] == "reset" else f"ev 0 step {op[1] % 1000}")
+            lines.append(f"ev 0 resetopt {iso.seed_text(op[1] if not unit.get('marl') else None)}" if op[0] == "reset" else f"ev 0 step {op[1] % 1000}")
         later_lines = [f"ev X resetopt {iso.seed_text(seed)}"] + [f"ev X step {op[1] % 1000}" for op in res["later"][1:]]
         lines += (["saverng"] if seed is None else []) + [l.replace("X", "0") for l in later_lines]
-        lines += [f"ev 1 {ctor}"] + [f"ev 1 resetopt {1000003 + k}" for k in range(res["fresh_resets"])]
+        lines += [f"ev 1 {ctor}"] + [f"ev 1 resetopt {iso.seed_text(1000003 + k if not unit.get('marl') else None)}" for k in range(res["fresh_resets"])]
         lines += (["restorerng"] if seed is None else []) + [l.replace("X", "1") for l in later_lines]
         lines.append(f"cmptail 0 1 {len(later_lines)}")
         ctx.model_lines += lines
@@ -1039,6 +1083,10 @@ def _dirty_specs(ctx: Ctx, rng: Rng):
     for d in (["scenario_with_placeholders"] + (["mini_scenario_with_simulation_variation"] if ctx.thorough else [])):
         if (scen.PKG / d).is_dir():
             yield f"{d}/episodic", {"dir": d}
+    # the multi-agent environment (PrimaiteRayMARLEnv) on the shipped two-defender scenarios
+    for name in (["data_manipulation_marl"] + (["multi_agent_session"] if ctx.thorough else [])):
+        if name in sh:
+            yield f"{name}/marl-env", {"scenario": name, "aug": None, "marl": True}
 
 
 def _pairs(ctx: Ctx, rng: Rng):
